@@ -536,6 +536,10 @@ func VerifyEvidence(doc *document.Document, evidence *document.ChipAuthEvidence)
 		return nil, fmt.Errorf("[VerifyEvidence] evidence field exceeds maximum length (%d)", maxEvidenceFieldLen)
 	}
 
+	if doc == nil || !caAdvertised(doc) {
+		return nil, fmt.Errorf("[VerifyEvidence] document does not advertise Chip Authentication (DG14 missing or without CA entries)")
+	}
+
 	params, err := selectChipAuthParams(doc)
 	if err != nil {
 		return nil, fmt.Errorf("[VerifyEvidence] selectChipAuthParams error: %w", err)
